@@ -12,7 +12,7 @@ import vlib
 
 META = {
     "level": "model_checking",
-    "text": "TLC exhaustively checks, for every proof-map state of up to 4 validators x 3-4 targets (several power vectors incl. a heavy validator and totals not divisible by 3; both vote kinds together for 2-3 validators), that the summary computed by the transcribed Set*Powers loop equals the recount from the signatures (available, per-target, total-once, most-voted with lexicographic tie-break, independent of map iteration order) and that signers below the Byzantine minority cannot alone reach the round-jump, delay-timeout, 100%-present or any later-step threshold. Every enumerated state and simulated arrival order is instantiated with real ed25519 signature proofs and run through the real VoteSummary.Set*Powers, newVoteDistribution and GetStepFromVoteSummary; the real outputs, plus seeded random cases up to 7 validators, are validated back against the spec by TLC.",
+    "text": "TLC exhaustively checks, for every proof-map state of up to 4 validators x 3-4 targets (several power vectors incl. a heavy validator and totals not divisible by 3; both vote kinds together for 2-3 validators), that the summary computed by the transcribed Set*Powers loop equals the recount from the signatures (available, per-target, total-once, most-voted with lexicographic tie-break, independent of map iteration order) and that signers below the Byzantine minority cannot alone reach the round-jump, delay-timeout, 100%-present or any later-step threshold. Every enumerated state and simulated arrival order is instantiated with real ed25519 signature proofs and run through the real VoteSummary.Set*Powers, newVoteDistribution and GetStepFromVoteSummary; the real outputs, plus seeded random cases up to 7 validators, are validated back against the spec by TLC. The kernel stage also replays validator-set worlds in which the total power changes from height to height, the exhaustive cover of the focused validator-set world and the concurrent-caller driver; the repository's own tests run under the invariant monitor (summary = recount on every view after every kernel step).",
     "note": "The Mirror-kernel consequence (a real Mirror jumping rounds / advancing on 100% present) is checked by replaying MirrorMC behaviours of the equivocation worlds on a real Mirror. uint64 overflow of the sums is out of TLC's range and not covered. Proofs are SimpleCommonMessageSignatureProof over the round's own validator keys (bits beyond len(vals) cannot occur).",
     "technique": "TLA+ spec + TLC exhaustive (design and as-is variants) + state/behaviour replay on the real Go functions with real signatures + TLC trace validation of recorded results",
     "design_ref": "DESIGN.md section 5, C06",
